@@ -481,6 +481,9 @@ package shmipc
 
 // mappingFreeBufferList: reads cap / capPerBuffer from the header and rebuilds the same geometry, or fails
 //@ func mappingFreeBufferList
+//@   hint     r1 == nil ==> ptrAt(r0.cap, mem, offset + 4) && ptrAt(r0.capPerBuffer, mem, offset + 16) && *r0.cap == mem32(mem, offset + 4) && *r0.capPerBuffer == mem32(mem, offset + 16)
+//@   hint     r1 == nil ==> needSize == uint32(36 + mem32(mem, offset + 4) * (mem32(mem, offset + 16) + 20))
+//@   hint     r1 == nil && 36 + mem32(mem, offset + 4) * (mem32(mem, offset + 16) + 20) < 4294967296 ==> needSize == 36 + mem32(mem, offset + 4) * (mem32(mem, offset + 16) + 20) && offset + needSize < 4294967296
 //@   requires len(mem) < 4294967296 && region(mem) > 0
 //@   ensures  r1 != nil ==> r0 == nil
 //@   ensures  r1 == nil ==> r0 != nil && fresh(r0) && offset + 36 <= len(mem) && r0.offsetInShm == offset && r0.bufferRegionOffsetInShm == uint32(offset + 36)
